@@ -81,7 +81,7 @@ Definition softmax (l : list R) : list R := map (fun x => exp (x - lse l)) l.
 Definition cat_entropy (l : list R) : R := - sumR (map (fun x => exp (x - lse l) * (x - lse l)) l).
 (* m is an index of a maximal entry (what th.argmax returns; ties: any) *)
 Definition max_at (l : list R) (m : nat) : Prop :=
-  fold_right (fun x acc => x <= nth m l 0 /\ acc) True l.
+  (m < length l)%nat /\ fold_right (fun x acc => x <= nth m l 0 /\ acc) True l.
 Fixpoint argmax_from (l : list R) (i best : nat) (bv : R) : nat :=
   match l with
   | [] => best
